@@ -902,3 +902,130 @@ Proof.
 Qed.
 Lemma nested_value_run reps T : nested_value reps (T, []) = text_value T.
 Proof. unfold nested_value, payload_pieces. cbn [fst snd flat_map]. rewrite app_nil_r. destruct T; reflexivity. Qed.
+
+Lemma nested_extends_text_literal (T : str) (reps : list rep) :
+  payload_ok (T, []) = bal 0 T /\ payload_text (T, []) = T /\ nested_value reps (T, []) = text_value T.
+Proof. split; [apply payload_ok_run|]. split; [apply app_nil_r|apply nested_value_run]. Qed.
+
+(* ================================================================ `name{P}*N`: the parser *)
+(* `name{inner}*N`: one element block with value [inner] and the repeater *)
+Theorem block_text_rep jsx (nt open close tr : token) (v : str) (inner : list token) (rp : rep) :
+  tk nt = TLiteral v -> tk open = TBracket true BExpr -> tk close = TBracket false BExpr ->
+  rep_of tr = Some rp -> Forall not_expr_bracket inner ->
+  block_ok jsx (nt :: open :: inner ++ [close; tr]) (mkLeaf (Some [nt]) None (Some inner) (Some rp) false).
+Proof.
+  intros Hn Ho Hc Hr HF. split; [discriminate|]. split.
+  - cbn [hd_is]. unfold is_climb_op, is_operator. rewrite Hn. reflexivity.
+  - intros rest Hb.
+    assert (Eshape : (nt :: open :: inner ++ [close; tr]) ++ rest = nt :: open :: (inner ++ [close]) ++ tr :: rest).
+    { cbn [app]. rewrite <- !app_assoc. reflexivity. }
+    rewrite Eshape.
+    assert (Hname : element_name jsx (nt :: open :: (inner ++ [close]) ++ tr :: rest) = 1%nat).
+    { unfold element_name. cbn [app hd_is tl].
+      assert (Hchain : jsx_chain (open :: (inner ++ [close]) ++ tr :: rest) = 0%nat).
+      { cbn [jsx_chain]. unfold is_operator. rewrite Ho. reflexivity. }
+      assert (Hn1 : is_element_name_tok nt = true) by (unfold is_element_name_tok; rewrite Hn; reflexivity).
+      assert (Hn2 : is_element_name_tok open = false) by (unfold is_element_name_tok; rewrite Ho; reflexivity).
+      destruct (jsx && is_capitalized_literal nt).
+      - rewrite Hchain. cbn [skipn span_tok Nat.add]. rewrite Hn2. reflexivity.
+      - cbn [skipn span_tok Nat.add]. rewrite Hn1, Hn2. reflexivity. }
+    unfold element. rewrite Hname. cbn [app firstn].
+    cbn [elem_loop].
+    set (s0 := mkEst (Some [nt]) None None None false).
+    assert (Htx : text (open :: (inner ++ [close]) ++ tr :: rest) = S (length inner + 1)).
+    { unfold text, is_bracket. rewrite Ho. cbn [bctx_eqb Bool.eqb andb].
+      rewrite <- app_assoc. cbn [app]. rewrite text_loop_inner by assumption.
+      cbn [text_loop]. rewrite Hc. reflexivity. }
+    assert (Hbody : elem_body jsx s0 (open :: (inner ++ [close]) ++ tr :: rest)
+                    = ECont (mkEst (Some [nt]) None (Some inner) None false) (S (length inner + 1))).
+    { unfold elem_body. unfold rep_of. rewrite Ho.
+      cbn [s0 e_repeat est_empty e_name e_value e_attrs negb e_self].
+      rewrite Htx. f_equal. f_equal.
+      cbn [firstn].
+      replace (length inner + 1)%nat with (length (inner ++ [close])) by (rewrite app_length; reflexivity).
+      rewrite firstn_app, firstn_all, Nat.sub_diag. cbn [firstn]. rewrite app_nil_r.
+      rewrite get_text_run by exact Hc. reflexivity. }
+    rewrite Hbody. cbn [pred].
+    replace (length inner + 1)%nat with (length (inner ++ [close])) by (rewrite app_length; reflexivity).
+    rewrite elem_loop_skip.
+    cbn [elem_loop].
+    assert (Hbody2 : elem_body jsx (mkEst (Some [nt]) None (Some inner) None false) (tr :: rest)
+                     = ECont (mkEst (Some [nt]) None (Some inner) (Some rp) false) 1).
+    { unfold elem_body. cbn [e_repeat est_empty e_name e_value e_attrs negb]. rewrite Hr. reflexivity. }
+    rewrite Hbody2. cbn [pred]. rewrite elem_loop_boundary by exact Hb.
+    cbn [shiftE est_empty e_name leaf_node lf_name lf_attrs lf_value lf_repeat lf_self e_attrs e_value e_repeat e_self].
+    f_equal. f_equal. f_equal. cbn [length]. rewrite !app_length. cbn [length]. lia.
+Qed.
+
+(* ================================================================ `name{P}*N`: the tokenizer *)
+Lemma toks_nested_elem name P rest :
+  name_ok name -> payload_ok P = true ->
+  toks 0 ctx0 None 0 (name ++ c_lbrace :: payload_text P ++ c_rbrace :: rest) =
+    tcons (nested_abbr_tokens name P)
+          (toks 0 ctx0 (Some c_rbrace) (length name + 1 + length (payload_text P) + 1) rest).
+Proof.
+  intros [Hne HF] Hb. unfold nested_abbr_tokens.
+  destruct name as [|c name']; [congruence|].
+  inversion HF as [|x y Hc HF']; subst.
+  destruct (name_char_facts c Hc) as [H1 [H2 [H3 [H4 [H5 [H6 H7]]]]]].
+  cbn [app]. etransitivity.
+  { apply toks_token.
+    apply (consume_plain ctx0 None c (name' ++ c_lbrace :: payload_text P ++ c_rbrace :: rest) H2 H4).
+    - unfold is_allowed_repeater. rewrite H5. reflexivity.
+    - exact (lit_name (c :: name') None (payload_text P ++ c_rbrace :: rest) HF). }
+  cbn [cgroup cattr cquote ctx0].
+  etransitivity.
+  { apply f_equal. apply (toks_token (mkCtx 0 0 0 None) _ _ c_lbrace [] (payload_text P ++ c_rbrace :: rest)).
+    apply consume_bracket; try reflexivity.
+    eexists. apply lit_stops_at_lbrace. }
+  cbn [is_open_bracket cgroup cattr cexpr cquote length].
+  change (c_lbrace =? c_lbrace) with true. cbn [orb].
+  change (mkCtx 0 0 (0 + 1) None) with (ectx 0 0 0).
+  etransitivity.
+  { apply f_equal. apply f_equal. apply (toks_payload P 0 0 _ _ rest Hb). }
+  etransitivity.
+  { apply f_equal. apply f_equal. apply f_equal.
+    apply (toks_token (ectx 0 0 0) _ _ c_rbrace [] rest).
+    apply (consume_bracket (mkCtx 0 0 1 None)); try reflexivity.
+    eexists. apply lit_stops_at_rbrace. }
+  cbn [cgroup cattr cexpr cquote length].
+  change (is_open_bracket c_rbrace) with false. change (is_open_bracket c_lbrace) with true.
+  change (last_prev (Some c_rbrace) []) with (Some c_rbrace).
+  change (1 + -1)%Z with 0%Z. cbn [Nat.add].
+  rewrite <- !tcons_app. cbn [app]. reflexivity.
+Qed.
+
+(* `*` digits after the closing brace is the Repeater token *)
+Lemma toks_repeater ds prev pos :
+  all_digits ds -> ds <> [] ->
+  toks 0 ctx0 prev pos (c_star :: ds) =
+    TOk [mkTok (TRepeater (opt_default 1 (int_of_str ds)) 0 false) pos (pos + S (length ds))].
+Proof.
+  intros Hd Hne.
+  assert (Hc : consume ctx0 prev (c_star :: ds ++ []) =
+               (CTok (TRepeater (opt_default 1 (int_of_str ds)) 0 false) (S (length ds)), ctx0)).
+  { unfold consume.
+    assert (Hf : field ctx0 (c_star :: ds ++ []) = CNone) by reflexivity.
+    rewrite Hf. cbn [orelse]. rewrite rp_none by reflexivity. cbn [orelse].
+    rewrite rn_none by reflexivity. cbn [orelse].
+    unfold repeater. replace (is_allowed_repeater c_star ctx0) with true by reflexivity.
+    cbn [cquote ctx0 andb].
+    rewrite (span_digits ds [] Hd eq_refl).
+    destruct ds as [|d0 ds']; [congruence|]. cbn [length].
+    change (S (length ds')) with (length (d0 :: ds')). rewrite firstn_app_exact. cbn [orelse]. reflexivity. }
+  replace (c_star :: ds) with (c_star :: ds ++ []) by (rewrite app_nil_r; reflexivity).
+  etransitivity; [exact (toks_token ctx0 prev pos c_star ds [] _ _ Hc)|reflexivity].
+Qed.
+
+Definition rep_count (ds : str) : N := opt_default 1 (int_of_str ds).
+
+Theorem tokenize_nested_rep name P ds :
+  name_ok name -> payload_ok P = true -> all_digits ds -> ds <> [] ->
+  let L := (length name + 1 + length (payload_text P) + 1)%nat in
+  tokenize (name ++ c_lbrace :: payload_text P ++ c_rbrace :: c_star :: ds) =
+    TOk (nested_abbr_tokens name P ++ [mkTok (TRepeater (rep_count ds) 0 false) L (L + S (length ds))]).
+Proof.
+  intros Hname Hb Hd Hne L. unfold tokenize.
+  rewrite (toks_nested_elem name P (c_star :: ds) Hname Hb).
+  rewrite (toks_repeater ds _ _ Hd Hne). reflexivity.
+Qed.
